@@ -823,6 +823,45 @@ func (in *Interp) builtin(b *ssa.Builtin, args []Value, ins *ssa.Call, st *State
 		}
 		return NewSym(ins.Type(), "append", args...)
 	}
+	if (b.Name() == "min" || b.Name() == "max") && len(args) == 2 {
+		isMin := b.Name() == "min"
+		if x, ok1 := ConstInt(args[0]); ok1 {
+			if y, ok2 := ConstInt(args[1]); ok2 {
+				if (isMin && y < x) || (!isMin && y > x) {
+					x = y
+				}
+				return MkInt(x, ins.Type())
+			}
+		}
+		if bt, ok := ins.Type().Underlying().(*types.Basic); ok && bt.Info()&types.IsInteger != 0 {
+			// a fresh term bounded by both operands (and, where both have the opposite bound, by the weaker of them)
+			r := NewSym(ins.Type(), b.Name(), args...)
+			op := token.LEQ
+			if !isMin {
+				op = token.GEQ
+			}
+			boolT := types.Typ[types.Bool]
+			lo0, hi0, hasLo0, hasHi0 := Bounds(st, args[0])
+			lo1, hi1, hasLo1, hasHi1 := Bounds(st, args[1])
+			Assume(st, BinOp(op, r, args[0], boolT), true)
+			Assume(st, BinOp(op, r, args[1], boolT), true)
+			if isMin && hasLo0 && hasLo1 {
+				lo := lo0
+				if lo1 < lo {
+					lo = lo1
+				}
+				Assume(st, BinOp(token.GEQ, r, MkInt(lo, ins.Type()), boolT), true)
+			}
+			if !isMin && hasHi0 && hasHi1 {
+				hi := hi0
+				if hi1 > hi {
+					hi = hi1
+				}
+				Assume(st, BinOp(token.LEQ, r, MkInt(hi, ins.Type()), boolT), true)
+			}
+			return r
+		}
+	}
 	st.Note("unsupported builtin %s", b.Name())
 	return NewSym(ins.Type(), "builtin:"+b.Name(), args...)
 }
